@@ -7,6 +7,7 @@ import (
 	"fmt"
 	"io"
 	"os"
+	"runtime"
 	"sort"
 	"strings"
 	"time"
@@ -88,6 +89,11 @@ func runSrvScenario(sc srvScenario) *srvResult {
 		}
 		res.actions = append(res.actions, a)
 		res.obs = append(res.obs, e.observe())
+		if os.Getenv("CORR_DEBUG_STACKS") != "" && strings.HasPrefix(a, "hret 5 err:16384") && !strings.Contains(res.obs[len(res.obs)-1], "5:text:5") {
+			buf := make([]byte, 1<<20)
+			n := runtime.Stack(buf, true)
+			fmt.Fprintf(os.Stderr, "LAST INSPECTION\n%s\nSTACKS AFTER SETTLE\n%s\n", gate.LastDump(), buf[:n])
+		}
 	}
 	return res
 }
@@ -118,6 +124,23 @@ func checkSrv(sc srvScenario, r *srvResult) []connVerdict {
 		if _, known := e.reqs[int(seq)]; !known {
 			add("C04", "no-phantom-response", "C04/phantom-response", fmt.Sprintf("%d response(s) written with sequence number %d, which no request carried", len(rs), seq))
 		}
+	}
+	if und := respFor[1<<62]; len(und) > 0 {
+		// the server wrote a frame the peer's decoder rejects: whoever is still waiting for an answer never gets it
+		for _, k := range e.order {
+			rq := e.reqs[k]
+			if len(respFor[rq.seq]) > 0 {
+				continue
+			}
+			v, told := hret[k]
+			switch {
+			case told && strings.HasPrefix(v, "err:"):
+				add("C06", "server-error-text", "C06/server-error-undecodable/"+sc.Hdr, fmt.Sprintf("request %d: the handler failed with a %s-byte error text, the response written for it cannot be decoded by the client's decoder", k, strings.TrimPrefix(v, "err:")))
+			case told && v == "ok":
+				add("C01", "server-reply-is-own", "C01/server-reply-undecodable/"+sc.Hdr, fmt.Sprintf("request %d: the response written for it cannot be decoded by the client's decoder", k))
+			}
+		}
+		delete(respFor, 1<<62)
 	}
 	var jobs []int // unary requests that must execute, in request order
 	for _, k := range e.order {
@@ -231,6 +254,7 @@ func srvCorpus() []srvScenario {
 			out = append(out, srvScenario{Hdr: h, DirectIO: m.d, Pipe: m.p, Actions: append(acts, "drain"), Name: name})
 		}
 		mk("shapes", "req 1 Unary 0 ok", "req 2 Ctx 0 ok", "req 3 Ret 0 ok", "req 4 RetCtx 0 ok", "req 5 Nope 0 ok", "req 6 Unary 0 badargs", "ping 7", "eof")
+		mk("error-text-boundaries", "req 1 Unary 1 ok", "req 2 Ret 1 ok", "req 3 Ctx 1 ok", "req 4 RetCtx 1 ok", "req 5 Unary 1 ok", "req 6 Unary 1 ok", "hret 1 err:127", "hret 2 err:128", "hret 3 err:129", "hret 4 err:16383", "hret 5 err:16384", "hret 6 err:8", "eof")
 		mk("errors", "req 1 Unary 1 ok", "req 2 Ret 1 ok", "req 3 Ctx 1 ok", "hret 1 err:40", "hret 2 err:300", "hret 3 badreply", "req 4 Unary 0 ok", "eof")
 		mk("out-of-order-finish", "req 1 Unary 1 ok", "req 2 Unary 1 ok", "req 3 Unary 1 ok", "hret 3 ok", "hret 1 ok", "hret 2 ok", "ping 4", "eof")
 		mk("burst-then-eof", "req 1 Unary 0 ok", "req 2 Unary 0 ok", "req 3 Unary 0 ok", "req 4 Unary 0 ok", "req 5 Unary 0 ok", "req 6 Unary 0 ok", "eof")
@@ -279,7 +303,7 @@ func genSrvScenario(r *prng.R, tier string) srvScenario {
 		case x < 84:
 			if len(held) > 0 {
 				j := r.Intn(len(held))
-				v := []string{"ok", "ok", "ok", "err:20", "err:200", "badreply"}[r.Intn(6)]
+				v := []string{"ok", "ok", "ok", "err:20", "err:200", "badreply", "err:127", "err:128", "err:129", "err:16383", "err:16384", "err:40000"}[r.Intn(12)]
 				sc.Actions = append(sc.Actions, fmt.Sprintf("hret %d %s", held[j], v))
 				held = append(held[:j], held[j+1:]...)
 			}
